@@ -439,7 +439,8 @@ def char_mutation(rng, s):
 
 
 def long_inputs(rng):
-    """very long / deeply nested inputs, within reason (a few thousand characters, nesting <= 300)"""
+    """very long / deeply nested inputs, within reason (a few thousand characters, nesting <= 450: deeper trees exceed the
+    recursion limit of the HARNESS's own readers; the parsers themselves are iterative and must not be depth-limited at all)"""
     out = ['(' * 150 + 'p' + ')' * 150, '(' * 150 + 'p' + ')' * 149, '(' * 150 + 'p or q' + ')' * 150,
            'not ' * 200 + 'p', '~' * 200 + 'p', 'A X ' * 100 + 'p', 'A F E G ' * 60 + 'p', 'X ' * 200 + 'p',
            ' or '.join(['p'] * 300), ' and '.join(['(p or q)'] * 150), '|'.join(['p'] * 300) + ' and q',
@@ -447,7 +448,8 @@ def long_inputs(rng):
            'p or' + 'or' * 100, 'p or ' + 'orb' * 100, 'x' * 2000, 'p U' + 'U' * 500,
            '"' + 'a' * 3000 + '"', '"' + 'a' * 3000, '"' + '\\"' * 500 + '"', '"' + '\\' * 501 + '"', '#' * 1000,
            '-' * 999, 'p ' * 1000, '(' * 300, ')' * 300, 'not ' * 300, '\u20ac' * 500, ' ' * 2000, '\n' * 500 + 'p',
-           '(' * 200 + 'A(p U ' * 50 + 'q' + ')' * 249, 'p --> ' * 200 + 'q']
+           '(' * 200 + 'A(p U ' * 50 + 'q' + ')' * 249, 'p --> ' * 200 + 'q',
+           'not ' * 450 + 'p', '(' * 400 + 'p' + ')' * 400, 'X ' * 450 + 'p', '~' * 430 + '(p and q)', 'E G ' * 220 + 'q', 'A F ' * 220 + 'q']
     for _ in range(6):
         out.append(''.join(rng.choice(PALETTE) for _ in range(rng.randint(300, 2500))))
     return out
